@@ -74,6 +74,9 @@ def build(case):
             ops.append(op)
         sc['ops'] = ops
         cfg['ping'] = False
+    if sub == 'c06':
+        cfg['malformed_acks'] = True
+        cfg['cb_raise'] = 0
     if sub == 'c11':
         cfg['growth'] = False
         for life in sc['lives']:
